@@ -726,7 +726,12 @@ class Interp:
                     g = GroupV(a.kind, a.mono, set(a.flags) | {"fallback"}, a.vec)
                     return g
                 if isinstance(a, (UnitV, QuantV, NumV)) and isinstance(b, (UnitV, QuantV, NumV)):
-                    return OpaqueV("or of values")
+                    # `x or default`: which one is used depends on x's truthiness - a choice point
+                    i = len(self.choice_log)
+                    k = self.choice_plan[i] if i < len(self.choice_plan) else 0
+                    self.choice_log.append(2)
+                    self.choice_notes.append(("or", [(ast.unparse(e.values[0]), k == 0)]))
+                    return a if k == 0 else b
             known = [v.value for v in vals if isinstance(v, BoolV)]
             if len(known) == len(vals) and None not in known:
                 return BoolV(all(known) if isinstance(e.op, ast.And) else any(known))
